@@ -3,7 +3,7 @@ incomplete set fails the whole set and starts no payment."""
 from .. import sym
 from ..harness import ctx, Report, finish
 from ..scenario import InvoiceSpec, HtlcSpec, std_htlcs
-from ..monitors import SameResolution, NoPayAfterRejection, MismatchRejection
+from ..monitors import SameResolution, NoPayAfterRejection, MismatchRejection, Coverage
 from . import scen_common
 from .scen_common import be_bytes
 
@@ -16,6 +16,22 @@ def cfg_symbolic(n, store='free_absent'):
     specs = std_htlcs(pc, n, H)
     cfg = dict(htlcs=specs, invoices=[inv], store_init=store, max_parts=1, pay_outcomes=('complete', 'failed'),
                pending_parts=1)
+    return cfg, pc
+
+def cfg_stored(store):
+    """Stored earlier attempt: policy / invoice / declared totals concrete, HTLC amounts and expiries symbolic."""
+    H = sym.var('H')
+    pc = []
+    inv = InvoiceSpec(1, H, 1000000)
+    specs = std_htlcs(pc, 2, H)
+    for s in specs:
+        s.total = 1006000
+        s.forward = 'amount'
+        s.cltv_rel = 200
+        s.amount = 503000
+        s.cltv_expiry = 1000 + s.idx
+    cfg = dict(htlcs=specs, invoices=[inv], store_init=store, max_parts=1, pay_outcomes=('complete',),
+               pending_parts=1, policy=(1000, 5000, 100), cltv_delta=34, height=0)
     return cfg, pc
 
 def cfg_conflict(kind):
@@ -58,13 +74,13 @@ def main(tier, seed, args):
     budget = 110 if tier == 'quick' else 1500
     configs = []
     cfg, pc = cfg_symbolic(n)
-    configs.append(('symbolic[%d htlcs, free]' % n, cfg, pc, [SameResolution(), NoPayAfterRejection(('fee', 'expiry'))], {}))
+    configs.append(('symbolic[%d htlcs, free]' % n, cfg, pc, [SameResolution(), NoPayAfterRejection(('fee', 'expiry')), Coverage(['pay', 'response:Resolve', 'response:Fail(201a)', 'response:Fail(2019)'])], {}))
     for kind in ('invoice', 'tlv-amount'):
         cfg, pc = cfg_conflict(kind)
-        configs.append(('conflict[%s]' % kind, cfg, pc, [ConflictInit(), SameResolution(), MismatchRejection()], {}))
+        configs.append(('conflict[%s]' % kind, cfg, pc, [ConflictInit(), SameResolution(), MismatchRejection(), Coverage(['response:Fail(2019)'])], {}))
     for store in (('pending',) if tier == 'quick' else ('pending', 'succeeded')):
-        cfg, pc = cfg_symbolic(2, store)
-        configs.append(('symbolic[2 htlcs, %s]' % store, cfg, pc, [SameResolution()], {}))
+        cfg, pc = cfg_stored(store)
+        configs.append(('stored[2 htlcs, %s]' % store, cfg, pc, [SameResolution(), Coverage(['response:Resolve'])], {}))
     scen_common.run_configs(rep, PID, c, configs, budget)
     finish(rep, [c], './check C07 --tier ' + tier)
 
